@@ -59,7 +59,16 @@ func genC04(seed uint64, tier string) *Plan {
 				q.Until = relTime(time.Duration(b) / time.Second * time.Second)
 			}
 		}
-		p.Ops = append(p.Ops, Op{K: "q", Dt: PickOne(r, insDts), S: q.SQL(), B: r.Bool(0.8)})
+		op := Op{K: "q", Dt: PickOne(r, insDts), S: q.SQL(), B: r.Bool(0.8), S2: t.Name}
+		if r.Bool(0.35) {
+			// issue the query from inside a running flush of its table: N is the
+			// occurrence of the flush site (0 = header written, k = after the
+			// k-th row was written) at which it starts
+			op.N2 = 1
+			op.N = int64(r.Intn(4))
+			op.B = r.Bool(0.9)
+		}
+		p.Ops = append(p.Ops, op)
 	}
 	return p
 }
@@ -134,7 +143,32 @@ func execC04(e *Env, p *Plan) error {
 			continue
 		}
 		stepDt(e, op)
-		q := n.Query(op.S, QOpts{IncludeMem: op.B})
+		var q *QResult
+		if op.N2 == 1 {
+			site, want, seen := "flush.headerWritten", 1, 0
+			if op.N > 0 {
+				site, want = "flush.rowWritten", int(op.N)
+			}
+			e.mu.Lock()
+			e.OnPoint = func(nn *Node, s, tbl string) {
+				if q != nil || s != site || tbl != op.S2 {
+					return
+				}
+				if seen++; seen < want {
+					return
+				}
+				q = n.Query(op.S, QOpts{IncludeMem: op.B})
+				e.Count("probe.query-during-flush")
+			}
+			e.mu.Unlock()
+			n.DB.FlushAll()
+			e.mu.Lock()
+			e.OnPoint = nil
+			e.mu.Unlock()
+		}
+		if q == nil {
+			q = n.Query(op.S, QOpts{IncludeMem: op.B})
+		}
 		e.Count("op.q")
 		if q.Panicked {
 			e.Count("q.panic")
